@@ -1049,11 +1049,30 @@ fn child_main(batch: &str) -> ! {
         let _ = writeln!(outf, "L {} {} {} {} {} {}", idx, safety, result, grow, cpu, if case.note.is_empty() { "-" } else { case.note });
         let mut p = 0;
         if let Some(st) = store {
-            if guard(|| probe(&st)).is_none() {
-                p = 1;
+            if case.probe {
+                if guard(|| probe(&st)).is_none() {
+                    p = 1;
+                }
+                // dropping a deeply nested value can overflow the stack too: do it before P is written
+                drop(st);
+            } else {
+                // mutated CBOR: the lookups are informative only and may not terminate on a store with
+                // cyclic references; give them three seconds, then start over with a fresh process
+                let (tx, rx) = std::sync::mpsc::channel();
+                std::thread::spawn(move || {
+                    let r = guard(|| probe(&st)).is_none();
+                    drop(st);
+                    let _ = tx.send(r);
+                });
+                match rx.recv_timeout(std::time::Duration::from_secs(3)) {
+                    Ok(failed) => p = failed as i64,
+                    Err(std::sync::mpsc::RecvTimeoutError::Timeout) => {
+                        let _ = writeln!(outf, "P {} 12", idx);
+                        std::process::exit(77);
+                    }
+                    Err(_) => p = 1, // the thread died (stack overflow aborts the process before we get here)
+                }
             }
-            // dropping a deeply nested value can overflow the stack too: do it before P is written
-            drop(st);
         }
         let _ = writeln!(outf, "P {} {}", idx, if case.probe { p } else { p + 10 });
     }
@@ -1179,6 +1198,11 @@ pub fn run_batch(reqs: &[Sx]) -> Vec<Obs> {
                 }
                 _ => {}
             }
+        }
+        if matches!(status, Some(st) if st.code() == Some(77)) && !hung && begun.is_none() {
+            // the child gave up on lookups that did not end and asks for a fresh process
+            start = done_upto;
+            continue;
         }
         let finished = matches!(status, Some(st) if st.success()) && !hung;
         if finished && begun.is_none() {
